@@ -5,7 +5,7 @@ PROPERTY = "C16"
 
 
 def tasks(tier):
-    return (contract_tasks("contracts.set_data_ded", "C16") + contract_tasks("contracts.scheduler", "C16", tier=tier) + contract_tasks("contracts.sim_process", "C16", tier=tier)
+    return (contract_tasks("contracts.merge_ded", "C16") + contract_tasks("contracts.set_data_ded", "C16") + contract_tasks("contracts.scheduler", "C16", tier=tier) + contract_tasks("contracts.sim_process", "C16", tier=tier)
             + contract_tasks("contracts.progress", "C16", tier=tier) + lemma_tasks("contracts.progress", "C16")
             + contract_tasks("contracts.connect", "C16", tier=tier) + other_tasks("contracts.dataplane_bounded", "C16", "bounded")
             + other_tasks("contracts.determinism_bounded", "C16", "bounded")
